@@ -637,7 +637,9 @@ start:
 						} else {
 							s.setOuter(tuple.Tag, MaybeNil)
 						}
-						s.setOuter(v, s.get(tuple.Tag).Inner)
+						// In the default branch, the value has the type of
+						// the tag and is the tag's interface value itself.
+						s.set(v, s.get(tuple.Tag))
 					} else {
 						// There is no Extract for the 'untyped nil' case,
 						// which means that executing any Extract from a type
@@ -650,6 +652,11 @@ start:
 							// always produces a non-nil interface value.
 							s.setInner(v, s.get(tuple.Tag).Inner)
 							s.setOuter(v, NeverNil)
+						} else if types.IsInterface(v.Type()) {
+							// A clause listing several types. The value has
+							// the type of the tag and is the tag's interface
+							// value itself, not the value stored in it.
+							s.set(v, s.get(tuple.Tag))
 						} else {
 							s.setOuter(v, s.get(tuple.Tag).Inner)
 						}
